@@ -82,10 +82,12 @@ func SimC04(c *CheckCtx, i int, r *Rng) error {
 		gens = RealGens(names)
 		c.Env.Stats.Add("probe/real-generators-world", 1)
 	}
+	clash := false
 	if !real && i%5 == 2 {
 		// import names that have to be disambiguated: aliases must not depend on map order or on what
 		// the process generated before
 		m, names, gens = clashWorld(r, base)
+		clash = true
 		c.Env.Stats.Add("probe/import-name-clash-world", 1)
 	}
 	// bias: map-valued arguments exercise the dumper's key order
@@ -101,6 +103,15 @@ func SimC04(c *CheckCtx, i int, r *Rng) error {
 		}
 	}
 	eps := drawEntrypoints(r, m)
+	if clash && r.P(0.6) {
+		// the package that mentions only one of the two clashing paths, generated without - or, where it
+		// sorts first, before - the package that mentions both
+		if m.Pkgs[2].Dir > m.Pkgs[3].Dir {
+			eps = []int{2, 3}
+		} else {
+			eps = []int{3}
+		}
+	}
 	args := proto.GenArgs{Entrypoint: spell(r, m, eps), Base: base, All: r.P(0.8), Force: r.P(0.3), Globals: drawGlobals(r, names)}
 	if real {
 		args.Globals = nil
@@ -186,6 +197,15 @@ func SimC04(c *CheckCtx, i int, r *Rng) error {
 		{Kind: "warm", Run: mkRun(asc, spell(r, m, allEps), true)},
 		{Kind: "run", Run: mkRun(asc, args.Entrypoint, false)},
 	}})
+	if clash {
+		// ... nor on which single package the process generated before (in a scratch copy)
+		for pi := 2; pi < len(m.Pkgs); pi++ {
+			sc.Variants = append(sc.Variants, Variant{Name: fmt.Sprintf("proc:warm-one:%d", pi), Ops: []Op{
+				{Kind: "warm", Run: mkRun(asc, spell(r, m, []int{pi}), true)},
+				{Kind: "run", Run: mkRun(asc, args.Entrypoint, false)},
+			}})
+		}
+	}
 	out, err := c.RunScenario(sc, i)
 	if err != nil {
 		return err
